@@ -39,6 +39,7 @@ fn de_value<T: Deserialize<'static>>(bytes: &'static [u8]) -> Option<T> {
     match T::deserialize(&mut d) { Ok(v) if d.remaining().is_empty() => Some(v), _ => None }
 }
 
+
 macro_rules! roundtrip {
     ($name:ident, $t:ty, $unwind:expr) => {
         #[kani::proof]
@@ -56,14 +57,42 @@ macro_rules! roundtrip {
         }
     };
 }
+#[derive(Serialize, Deserialize, PartialEq, Clone, Copy, kani::Arbitrary)]
+enum Colour { Red, Green, DarkBlue }
+#[derive(Serialize, Deserialize, PartialEq, Clone, Copy, kani::Arbitrary)]
+struct Flag(bool);
 roundtrip!(c09_roundtrip_bool, bool, 8);
-roundtrip!(c09_roundtrip_u8, u8, 8);
-roundtrip!(c09_roundtrip_i16, i16, 10);
-roundtrip!(c09_roundtrip_option_u8, Option<u8>, 8);
+roundtrip!(c09_roundtrip_option_bool, Option<bool>, 8);
+roundtrip!(c09_roundtrip_unit_enum, Colour, 12);
+roundtrip!(c09_roundtrip_option_unit_enum, Option<Colour>, 12);
+roundtrip!(c09_roundtrip_newtype, Flag, 8);
 roundtrip!(c09_roundtrip_char, char, 14);
-roundtrip!(c09_roundtrip_pair_u8, (u8, u8), 10);
+roundtrip!(c09_roundtrip_pair_bool, (bool, bool), 12);
+roundtrip!(c09_roundtrip_triple_bool, (bool, bool, bool), 18);
 
-/// strings of 1..=2 arbitrary bytes forming valid UTF-8 (reserved characters and non-ASCII included)
+/// integers: formatting and parsing are core's Display / FromStr (executed, not specified); the values are the boundaries of every width
+macro_rules! int_roundtrip {
+    ($name:ident, $t:ty, [$($v:expr),*]) => {
+        #[kani::proof]
+        #[kani::unwind(24)]
+        #[kani::stub(alloc::fmt::format, stub_format)]
+        #[kani::stub(std::str::from_utf8, stub_from_utf8)]
+        fn $name() {
+            $( { let v: $t = $v; let back: Option<$t> = de_value(ser_value(&v)); assert!(back == Some(v), "urlencoded: the serialized integer decodes back to an equal value"); } )*
+        }
+    };
+}
+int_roundtrip!(c09_roundtrip_int_u8_i8, i16, [0, 9, 10, 99, 100, 127, 128, 255, -1, -128]);
+int_roundtrip!(c09_roundtrip_int_u64_bounds, u64, [0, u32::MAX as u64, i64::MAX as u64, i64::MAX as u64 + 1, u64::MAX]);
+int_roundtrip!(c09_roundtrip_int_i64_bounds, i64, [i64::MIN, i64::MIN + 1, -1, i32::MIN as i64, i64::MAX]);
+int_roundtrip!(c09_roundtrip_int_u32_i32_bounds, i64, [u32::MAX as i64, i32::MAX as i64, i32::MIN as i64, u16::MAX as i64, i16::MIN as i64]);
+int_roundtrip!(c09_roundtrip_int_u16_native, u16, [0, 255, 256, 9999, 10000, 65535]);
+int_roundtrip!(c09_roundtrip_int_u32_native, u32, [0, 65536, 999999999, 1000000000, 4294967295]);
+int_roundtrip!(c09_roundtrip_int_i8_native, i8, [-128, -1, 0, 127]);
+int_roundtrip!(c09_roundtrip_int_i32_native, i32, [i32::MIN, -1, 0, i32::MAX]);
+int_roundtrip!(c09_roundtrip_int_u8_native, u8, [0, 9, 10, 99, 100, 255]);
+
+/// strings of 0..=2 arbitrary bytes forming valid UTF-8 (reserved characters and non-ASCII included)
 fn roundtrip_string_body(len: usize) {
     let raw: [u8; 2] = kani::any();
     kani::assume(spec_utf8(&raw[..len]));
@@ -73,6 +102,61 @@ fn roundtrip_string_body(len: usize) {
     let mut i = 0;
     while i < bytes.len() { let c = bytes[i]; assert!(c == b'%' || (c >= b'0' && c <= b'9') || (c >= b'a' && c <= b'z') || (c >= b'A' && c <= b'Z'), "urlencoded: a string is emitted percent-encoded (no raw reserved or non-ASCII byte)"); i += 1; }
     let back: Option<String> = de_value(bytes);
-    assert!(matches!(&back, Some(b) if b.len() == len && b.as_bytes()[0] == raw[0] && (len < 2 || b.as_bytes()[1] == raw[1])), "urlencoded: the serialized string decodes back to an equal string");
+    assert!(matches!(&back, Some(b) if b.len() == len && (len < 1 || b.as_bytes()[0] == raw[0]) && (len < 2 || b.as_bytes()[1] == raw[1])), "urlencoded: the serialized string decodes back to an equal string");
 }
 //@chunks 3 c09_roundtrip_string roundtrip_string_body #[kani::proof] #[kani::unwind(14)] #[kani::stub(alloc::fmt::format, stub_format)] #[kani::stub(crate::percent_encoding::percent_decode, spec_percent_decode)] #[kani::stub(crate::percent_encoding::percent_decode_utf8, spec_percent_decode_utf8)] #[kani::stub(crate::percent_encoding::percent_encode, spec_percent_encode)] #[kani::stub(std::str::from_utf8, stub_from_utf8)]
+
+/// pairs of strings (sequence elements of concrete lengths, symbolic ASCII contents: `,` `&` `=` `%` included)
+fn roundtrip_string_pair_body(k: usize) {
+    const L: [(usize, usize); 4] = [(1, 1), (1, 0), (2, 1), (0, 1)];
+    let (l0, l1) = L[k];
+    let r0: [u8; 2] = kani::any(); let r1: [u8; 2] = kani::any();
+    kani::assume(r0[0] < 128 && r0[1] < 128 && r1[0] < 128 && r1[1] < 128);
+    let a: String = unsafe { String::from_utf8_unchecked(Vec::from(&r0[..l0])) };
+    let b: String = unsafe { String::from_utf8_unchecked(Vec::from(&r1[..l1])) };
+    let v = (a, b);
+    let bytes = ser_value(&v);
+    let back: Option<(String, String)> = de_value(bytes);
+    assert!(matches!(&back, Some((x, y)) if x.len() == l0 && y.len() == l1 && (l0 < 1 || x.as_bytes()[0] == r0[0]) && (l0 < 2 || x.as_bytes()[1] == r0[1]) && (l1 < 1 || y.as_bytes()[0] == r1[0])),
+        "urlencoded: a sequence of strings decodes back to the same sequence (element boundaries kept)");
+}
+//@chunks 4 c09_roundtrip_string_pair roundtrip_string_pair_body #[kani::proof] #[kani::unwind(14)] #[kani::stub(alloc::fmt::format, stub_format)] #[kani::stub(crate::percent_encoding::percent_decode, spec_percent_decode)] #[kani::stub(crate::percent_encoding::percent_decode_utf8, spec_percent_decode_utf8)] #[kani::stub(crate::percent_encoding::percent_encode, spec_percent_encode)] #[kani::stub(std::str::from_utf8, stub_from_utf8)]
+
+/// decoding of `key=value&key=value` text: the MapAccess steps of the real deserializer yield, pair by pair, the RFC 3986
+/// percent-decoding of the `&` / `=`-separated parts (keys of 1 byte, values of 0..=3 bytes, symbolic; `%XY` escapes included)
+fn eqb(a: &[u8], b: &[u8]) -> bool { if a.len() != b.len() { return false } let mut i = 0; while i < a.len() { if a[i] != b[i] { return false } i += 1; } true }
+fn decode_text_body(k: usize) {
+    use serde::de::MapAccess;
+    const L: [(usize, usize); 4] = [(1, 1), (3, 0), (0, 3), (2, 2)];
+    let (v0, v1) = L[k];
+    let raw: &'static mut [u8; 11] = Box::leak(Box::new(kani::any()));
+    // layout: K '=' V0.. '&' K '=' V1..
+    let n = 2 + v0 + 1 + 2 + v1;
+    raw[1] = b'='; raw[2 + v0] = b'&'; raw[2 + v0 + 2] = b'=';
+    let mut i = 0;
+    while i < n { if i != 1 && i != 2 + v0 && i != 2 + v0 + 2 { kani::assume(raw[i] != b'&' && raw[i] != b'='); } i += 1; }
+    let text: &'static [u8] = &raw[..n];
+    let (key0, val0, key1, val1) = (&text[0..1], &text[2..2 + v0], &text[3 + v0..4 + v0], &text[5 + v0..n]);
+    let mut de = de::URLEncodedDeserializer::new(text);
+    let mut acc = de::__verif_c09::c09_map_access(&mut de);
+    let k0 = acc.next_key_seed(std::marker::PhantomData::<String>);
+    let want_k0 = spec_percent_decode_utf8(key0);
+    assert!(match (&k0, &want_k0) { (Ok(Some(g)), Ok(w)) => eqb(g.as_bytes(), w.as_bytes()), (Err(_), Err(_)) => true, _ => false }, "urlencoded text: first key is the percent-decoding of the part before `=`");
+    if k0.is_err() { return }
+    let g0 = acc.next_value_seed(std::marker::PhantomData::<String>);
+    let want_v0 = spec_percent_decode_utf8(val0);
+    assert!(match (&g0, &want_v0) { (Ok(g), Ok(w)) => eqb(g.as_bytes(), w.as_bytes()), (Err(_), Err(_)) => true, _ => false }, "urlencoded text: first value is the percent-decoding of the part between `=` and `&`");
+    if g0.is_err() { return }
+    let k1 = acc.next_key_seed(std::marker::PhantomData::<String>);
+    let want_k1 = spec_percent_decode_utf8(key1);
+    assert!(match (&k1, &want_k1) { (Ok(Some(g)), Ok(w)) => eqb(g.as_bytes(), w.as_bytes()), (Err(_), Err(_)) => true, _ => false }, "urlencoded text: second key");
+    if k1.is_err() { return }
+    let g1 = acc.next_value_seed(std::marker::PhantomData::<String>);
+    let want_v1 = spec_percent_decode_utf8(val1);
+    assert!(match (&g1, &want_v1) { (Ok(g), Ok(w)) => eqb(g.as_bytes(), w.as_bytes()), (Err(_), Err(_)) => true, _ => false }, "urlencoded text: second value is the percent-decoding of the last part");
+    if g1.is_err() { return }
+    let end = acc.next_key_seed(std::marker::PhantomData::<String>);
+    assert!(matches!(end, Ok(None)), "urlencoded text: nothing after the last pair");
+    kani::cover!(true);
+}
+//@chunks 4 c09_decode_text decode_text_body #[kani::proof] #[kani::unwind(14)] #[kani::stub(alloc::fmt::format, stub_format)] #[kani::stub(crate::percent_encoding::percent_decode, spec_percent_decode)] #[kani::stub(crate::percent_encoding::percent_decode_utf8, spec_percent_decode_utf8)] #[kani::stub(std::str::from_utf8, stub_from_utf8)]
